@@ -133,6 +133,46 @@ def random_partial_check(n, seed):
 
 
 # ------------------------------------------------------------------ independent specification (Python)
+def growth_check(kind, grow):
+    """the model is extended after construction (a parameter, or a state, is added through the list setters, with an ODE term
+    that uses it); the FIRST assignment afterwards, in the given format, binds every name to its value.  -> None or what fails"""
+    import pg
+    n = 2
+    m = fresh_model(n)
+    m.parameters = [3, 4]
+    first = [float(v) for v in np.asarray(m.ode(np.zeros(n), 0.0)).ravel()]
+    if first != [3.0, 4.0]:
+        return "before the extension ode() sees %s, the values given are [3, 4]" % first
+    if grow == "param":
+        m.param_list = [NAMES[n]]
+        m.state_list = ["x%d" % n]
+        m.add_ode(pg.Transition(origin="x%d" % n, equation=NAMES[n], transition_type=pg.TransitionType.ODE))
+        n += 1
+    else:
+        m.state_list = ["x%d" % n]
+        m.add_ode(pg.Transition(origin="x%d" % n, equation="%s+%s" % (NAMES[0], NAMES[1]), transition_type=pg.TransitionType.ODE))
+    vals = [11, 5, 9][:2 + (grow == "param")]
+    op = dict(kind=kind, items=vals if kind in ("list", "tuple", "array") else [[i, v] for i, v in enumerate(vals)])
+    try:
+        m.parameters = py_value(op, m)
+    except Exception as e:      # noqa: B902
+        return "after %s was added, the assignment (%s) of %s raised %s: %s" % (grow, kind, vals, type(e).__name__, str(e)[:100])
+    seen = [float(v) for v in np.asarray(m.ode(np.zeros(len(m.state_list)), 0.0)).ravel()]
+    want = [float(v) for v in vals] if grow == "param" else [11.0, 5.0, 16.0]
+    if seen != want:
+        return ("after a %s was added to the model, the first assignment (%s form) of %s is seen by ode() as %s (expected %s)"
+                % ("parameter" if grow == "param" else "state", kind, vals, seen, want))
+    # and a second, partial one
+    m.parameters = {NAMES[1]: 21}
+    seen = [float(v) for v in np.asarray(m.ode(np.zeros(len(m.state_list)), 0.0)).ravel()]
+    want[1] = 21.0
+    if grow != "param":
+        want[2] = 32.0
+    if seen != want:
+        return "after a %s was added and all values assigned (%s form), {%s: 21} is seen by ode() as %s (expected %s)" % (grow, kind, NAMES[1], seen, want)
+    return None
+
+
 def spec_history(n, ops):
     """the property read literally: name -> value map; full forms replace, dict merges, rejected = no-op.
     returns per op (ok_expected, map) ; ok_expected None = property silent (duplicate names in pairs)"""
@@ -324,6 +364,15 @@ def run(ck):
             bad = "%s: %s" % (type(e).__name__, str(e)[:150])
         if bad:
             ck.violation("binding-mismatch/random-partial", bad, dict(kind="random-partial", n=n_, seed=sd))
+    for kind in ("list", "tuple", "array", "pairs", "dict_str", "dict_sym"):
+        for grow in ("param", "state"):
+            ck.case(dict(kind="growth", form=kind, grow=grow), nontrivial=True)
+            try:
+                bad = growth_check(kind, grow)
+            except Exception as e:          # noqa: BLE001
+                bad = "%s: %s" % (type(e).__name__, str(e)[:150])
+            if bad:
+                ck.violation("binding-mismatch/after-growth", bad, dict(kind="growth", form=kind, grow=grow))
     # ---- K: the Coq model (with the extracted alias fact) against the implementation, op by op
     files = []
     shard = 400
@@ -358,5 +407,7 @@ def replay(ck, data):
     h = data["input"]
     if h.get("kind") == "random-partial":
         return random_partial_check(h["n"], h["seed"])
+    if h.get("kind") == "growth":
+        return growth_check(h["form"], h["grow"])
     j = judge(h, run_history(h["n"], h["ops"]))
     return j[1] if j else None
